@@ -39,6 +39,7 @@ def check_artefact(ctx, a, stats):
         nx = first["nx"]
         for k in range(2 * nx + 1):
             total = 0.0
+            total_allow = 0.0
             total_ok = True
             prev_last = None
             for gi, rid in enumerate(group):
@@ -63,7 +64,8 @@ def check_artefact(ctx, a, stats):
                 gR, gZ = ref.grad(P[:, 0], P[:, 1])
                 nu_pts = 1.0 / (P[:, 0] * np.hypot(gR, gZ))
                 var = np.maximum(nu_pts[1:], nu_pts[:-1]) / np.minimum(nu_pts[1:], nu_pts[:-1])
-                tol = rtol * np.abs(dphi) * var**2 + 1e-10
+                allow = trace.curvature_allowance(tr["kappa"][k], nf, float(np.nansum(arc)))
+                tol = (rtol * var**2 + allow) * np.abs(dphi) + 1e-10
                 bad = ok & (err > tol)
                 for m in np.argwhere(bad).ravel():
                     m = int(m)
@@ -91,6 +93,7 @@ def check_artefact(ctx, a, stats):
                           reg, dict(contour=k, point=origin, value=float(zs[origin])))
                 if np.all(np.isfinite(dphi)):
                     total += float(dphi.sum())
+                    total_allow += float(np.sum(allow * np.abs(dphi)))
                 else:
                     total_ok = False
             if k % 2 == 1:
@@ -103,7 +106,7 @@ def check_artefact(ctx, a, stats):
                     if total_ok:
                         ctx.setmax("worst_rel_ShiftAngle_error_times_Nfine^2", abs(sa - total) / abs(total) * nf**2)
                         # two contour ends per region may carry the end-point floor
-                        if not (abs(sa - total) <= rtol * abs(total)):
+                        if not (abs(sa - total) <= rtol * abs(total) + total_allow):
                             V("ShiftAngle differs from the field-line integral round the closed surface", first,
                               dict(contour=k, got=float(sa), integral=total, tol=rtol * abs(total)))
     sa_all = a.nc["ShiftAngle"]
